@@ -1,5 +1,5 @@
 """R-DSTR (C19): structural discipline of d_string.c and of DString field writes elsewhere."""
-from .prog import AnalysisBroken, key, strip, strip_parens, walk, const_value
+from .prog import AnalysisBroken, key, strip, strip_parens, walk, const_value, resolve_key
 from .ub1 import UB1, INF
 
 BUF_WRITERS = {"memcpy": 0, "memmove": 0, "strncpy": 0, "strncat": 0, "strcpy": 0, "strcat": 0, "memset": 0, "sprintf": 0,
@@ -17,17 +17,20 @@ def _dstring_param(f):
 
 
 def _buffer_writes(f, b):
-    """Writes into b->str: (node, kind, destination expression)."""
+    """Writes into b->str (also through local aliases such as `char * gap = b->str + pos`):
+    (node, kind, destination expression)."""
     out = []
     pre = b + "->str"
     for x in f.walk():
         if x["k"] == "BinaryOperator" and x["op"] == "=":
             l = strip(x["c"][0])
-            if l is not None and l["k"] == "ArraySubscriptExpr" and key(l["c"][0]) == pre:
+            if l is not None and l["k"] == "ArraySubscriptExpr" and pre in resolve_key(f, l["c"][0]):
+                out.append((x, "store", l))
+            elif l is not None and l["k"] == "UnaryOperator" and l["op"] == "*" and pre in resolve_key(f, l["c"][0]):
                 out.append((x, "store", l))
         elif x["k"] == "CallExpr" and x.get("callee") in BUF_WRITERS and len(x["c"]) > 1:
             d = x["c"][1 + BUF_WRITERS[x["callee"]]]
-            if pre in key(d):
+            if pre in resolve_key(f, d):
                 out.append((x, x["callee"], d))
     return out
 
@@ -60,14 +63,40 @@ def _grows(f, b, s):
     r = strip(s["c"][1])
     if r is None:
         return True
-    if r["k"] == "DeclRefExpr":
-        init = _var_init(f, r["n"])
-        if init is not None and lk in key(init) and "+" in key(init):
-            return True
-        if r.get("dk") == "Parm":
-            return False      # `= pos` under a pos <= length guard (checked by the clamping obligation)
-        return init is not None
-    return True
+    if r["k"] == "DeclRefExpr" and r.get("dk") == "Parm":
+        return False      # `= pos` under a pos <= length guard (checked by the clamping obligation)
+    rk = resolve_key(f, r)
+    return lk in rk and "+" in rk
+
+
+def _clampers(u):
+    """Static helpers `size_t H(DString * s, size_t p)` whose every return value is <= s->currentStringLength
+    (interval analysis with the relational fact p <= s->len at each `return p`)."""
+    out = {}
+    for h in u.funcs.values():
+        if not h.static or len(h.params) != 2:
+            continue
+        di = [i for i, q in enumerate(h.params) if "DString" in q[1]]
+        pi = [i for i, q in enumerate(h.params) if "size_t" in q[1]]
+        if len(di) != 1 or len(pi) != 1:
+            continue
+        s, p = h.params[di[0]][0], h.params[pi[0]][0]
+        lk = s + "->currentStringLength"
+        rets = [n for n in h.walk() if n["k"] == "ReturnStmt" and n["c"] and n["c"][0] is not None]
+        if not rets:
+            continue
+        ub = UB1(h)
+        ok = True
+        for r in rets:
+            k = key(r["c"][0])
+            if k == lk:
+                continue
+            st = ub.state_at(r["c"][0]) or ub.state_at(r)
+            if not (k == p and st is not None and st.get("?rel:%s<%s" % (p, lk)) in ((0, 0), (0, 1))):
+                ok = False
+        if ok:
+            out[h.name] = (di[0], "currentStringLength")
+    return out
 
 
 def r_dstr(P, chk):
@@ -91,6 +120,7 @@ def r_dstr(P, chk):
             for i, a in enumerate(c["c"][1:]):
                 if i < len(h.params) and "size_t" in h.params[i][1] and const_value(a) in (-1, 2 ** 64 - 1):
                     minus1_callers.setdefault((h.name, i), []).append("%s %s" % (g.where(c), g.name))
+    clampers = _clampers(u)
     n_funcs = 0
     for f in u.funcs.values():
         b = _dstring_param(f)
@@ -118,26 +148,16 @@ def r_dstr(P, chk):
                     chk.violation(rid, "dstr:order:%s:%s" % (f.name, kind), f.where(w), "%s writes into the buffer (%s) on a path "
                                   "that has not passed ensureStringBufferCanHold" % (f.name, kind))
             for s in grow:
-                # the ensured size is the stored length
+                # the ensured size is the stored length (compared after substituting hoisted locals)
                 if s["k"] == "BinaryOperator":
-                    want = key(s["c"][1])
-                    good = [e for e in ens if key(e["c"][2]) == want and f.cfg.dominates(e["i"], s["i"])]
-                    init = _var_init(f, want)
-                    wellformed = init is not None and lk in key(init)
-                    ok = bool(good) and wellformed
-                    detail = "length := %s, ensured %s" % (want, [key(e["c"][2]) for e in ens])
+                    want = resolve_key(f, s["c"][1])
+                elif s["k"] == "UnaryOperator":
+                    want = "(%s+1)" % lk
                 else:
-                    # length++ / += : ensured variable must be initialised as length + delta
-                    good = []
-                    for e in ens:
-                        init = _var_init(f, key(e["c"][2]))
-                        if init is not None and f.cfg.dominates(e["i"], s["i"]):
-                            ik = key(init)
-                            delta = "1" if s["k"] == "UnaryOperator" else key(s["c"][1])
-                            if ik in ("(%s+%s)" % (lk, delta), "(%s+%s)" % (delta, lk)):
-                                good.append(e)
-                    ok = bool(good)
-                    detail = "length %s, ensured %s" % (s.get("op"), [key(_var_init(f, key(e["c"][2])) or e["c"][2]) for e in ens])
+                    want = "(%s+%s)" % (lk, resolve_key(f, s["c"][1]))
+                ens_keys = [resolve_key(f, e["c"][2]) for e in ens if f.cfg.dominates(e["i"], s["i"])]
+                ok = want in ens_keys and lk in want
+                detail = "length := %s, ensured %s" % (want, ens_keys)
                 chk.obligation(rid, "%s %s: capacity ensured for exactly the new length (%s)" % (f.where(s), f.name, detail), ok)
                 if ens and not ok:
                     chk.violation(rid, "dstr:ensure-arg:%s" % f.name, f.where(s), "%s ensures capacity for a different size than "
@@ -146,17 +166,18 @@ def r_dstr(P, chk):
         for s in ls:
             ok = False
             how = ""
+            stored = resolve_key(f, s["c"][1]) if s["k"] == "BinaryOperator" else None
             for x in f.walk():
                 if x["k"] == "BinaryOperator" and x["op"] == "=" and const_value(x["c"][1]) == 0:
                     l = strip(x["c"][0])
-                    if l is not None and l["k"] == "ArraySubscriptExpr" and key(l["c"][0]) == b + "->str":
-                        ik = key(l["c"][1])
-                        same = ik == lk or (s["k"] == "BinaryOperator" and ik == key(s["c"][1]))
+                    if l is not None and l["k"] == "ArraySubscriptExpr" and resolve_key(f, l["c"][0]) == b + "->str":
+                        ik = resolve_key(f, l["c"][1])
+                        same = ik == lk or (stored is not None and ik == stored)
                         if same and f.cfg.postdominates(x["i"], s["i"]):
                             ok, how = True, "str[%s] = 0" % ik
             if not ok:
                 for c in f.calls("strncat"):
-                    if key(c["c"][1]) in ("(%s->str+%s)" % (b, lk),) and f.cfg.dominates(c["i"], s["i"]):
+                    if resolve_key(f, c["c"][1]) in ("(%s->str+%s)" % (b, lk),) and f.cfg.dominates(c["i"], s["i"]):
                         ok, how = True, "strncat terminates at the new end"
             chk.obligation(rid, "%s %s: buffer re-terminated after the length change (%s)" % (f.where(s), f.name, how), ok)
             if not ok:
@@ -165,7 +186,7 @@ def r_dstr(P, chk):
         # (C) position clamping
         pos = [p[0] for p in f.params if p[0] in ("pos", "start")]
         if pos:
-            ub = UB1(f, mods=mods)
+            ub = UB1(f, mods=mods, clampers=clampers)
             for pn in pos:
                 uses = []
                 for x in f.walk():
@@ -229,18 +250,20 @@ def r_dstr(P, chk):
     chk.obligation(rid, "ensureStringBufferCanHold reserves newStringSize + 1 bytes (room for the terminator)", ok)
     if not ok:
         chk.violation(rid, "dstr:ensure:plus1", e.where(), "ensureStringBufferCanHold no longer reserves newStringSize + 1 bytes")
-    if need:
+    re_call = [c for c in e.calls("realloc")]
+    if need and re_call:
         nv = need[0]["n"]
-        loops = [x for x in e.walk() if x["k"] == "WhileStmt" and key(x["c"][0]).startswith("(%s>" % nv)]
-        ifs = [x for x in e.walk() if x["k"] == "IfStmt" and key(x["c"][0]).startswith("(%s>" % nv)]
-        ok = bool(loops) and bool(ifs)
-        chk.obligation(rid, "ensureStringBufferCanHold grows while needed > capacity (strict comparison)", ok)
+        # at the realloc, interval analysis must know needed <= the size being allocated (the growth loop's exit condition)
+        ub = UB1(e)
+        st = ub.state_at(re_call[0])
+        szk = key(re_call[0]["c"][2])
+        ok = st is not None and st.get("?rel:%s<%s" % (nv, szk)) in ((0, 0), (0, 1))
+        chk.obligation(rid, "ensureStringBufferCanHold: the reallocated size `%s` is >= the needed size `%s` at the realloc" % (szk, nv), ok)
         if not ok:
-            chk.violation(rid, "dstr:ensure:loop", e.where(), "ensureStringBufferCanHold: the `needed > capacity` growth test/loop "
-                          "is gone or no longer strict")
+            chk.violation(rid, "dstr:ensure:loop", e.where(re_call[0]), "ensureStringBufferCanHold can realloc to a size `%s` that is "
+                          "not known to reach the needed size `%s`" % (szk, nv))
     st_str = [x for x in e.walk() if x["k"] == "BinaryOperator" and x["op"] == "=" and key(x["c"][0]) == b + "->str"]
     st_cap = [x for x in e.walk() if x["k"] == "BinaryOperator" and x["op"] == "=" and key(x["c"][0]) == b + "->currentStringBufferSize"]
-    re_call = [c for c in e.calls("realloc")]
     ok = bool(st_str) and bool(st_cap) and bool(re_call) and key(st_cap[0]["c"][1]) == key(re_call[0]["c"][2])
     chk.obligation(rid, "ensureStringBufferCanHold records exactly the size it reallocated", ok)
     if not ok:
